@@ -73,7 +73,7 @@ def families(tier):
     fams = []
     # A: one variable, every subset of the nine places that can matter + decoys
     if th:
-        fams.append(family_cfg("vars", V=REAL + USER + ["p2g", "ov2", "dso", "uso"], block=False))
+        fams.append(family_cfg("vars", V=REAL + USER + ["p2g", "ov2", "dso", "uso"], block=False, replicated=False))
         fams.append(family_cfg("vars-alldecoys", V=REAL + USER + VDECOY, block=True))
     else:
         fams.append(family_cfg("vars", V=REAL + USER + VDECOY, block=True))
